@@ -729,6 +729,7 @@ func c13Run(c *core.Ctx) {
 	}
 	c13FailingStream(c, bound)
 	c13EmptyOutput(c, bound)
+	c13TwoNames(c)
 	c13Faults(c)
 }
 
@@ -749,6 +750,107 @@ func c13EmptyOutput(c *core.Ctx, bound int) {
 			}
 			if has && !c.Expired() && c.Mine() {
 				c13RunSeq(c, ops, bound-1)
+			}
+			k := n - 1
+			for k >= 0 {
+				idx[k]++
+				if idx[k] < len(alpha) {
+					break
+				}
+				idx[k] = 0
+				k--
+			}
+			if k < 0 {
+				break
+			}
+		}
+	}
+}
+
+// c13TwoNames: ">>" never truncates and never overwrites: one file appended to
+// through two names at once ("f2" and "./f2" are two streams on one file), and
+// by the program and a real child process in turn. Whatever the flush order,
+// the file must end up with its old content followed by every line written,
+// each exactly once. Sequences of <= 4 operations (no scheduler: real files,
+// real child processes for the `sys` operation).
+type c13TwoCase struct {
+	Part string   `json:"part"`
+	Ops  []string `json:"ops"`
+}
+
+func c13TwoEval(c *core.Ctx, cs c13TwoCase) {
+	os.WriteFile(filepath.Join(c13Dir, "f2"), []byte("old\n"), 0o644)
+	var b strings.Builder
+	var want []string
+	b.WriteString("BEGIN {\n")
+	for i, op := range cs.Ops {
+		switch op {
+		case "a1":
+			fmt.Fprintf(&b, "  print \"G%d\" >> \"f2\"\n", i)
+			want = append(want, fmt.Sprintf("G%d", i))
+		case "a2":
+			fmt.Fprintf(&b, "  print \"H%d\" >> \"./f2\"\n", i)
+			want = append(want, fmt.Sprintf("H%d", i))
+		case "fl":
+			b.WriteString("  fflush()\n")
+		case "c1":
+			b.WriteString("  close(\"f2\")\n")
+		case "c2":
+			b.WriteString("  close(\"./f2\")\n")
+		case "sys":
+			fmt.Fprintf(&b, "  system(\"echo S%d >> f2\")\n", i)
+			want = append(want, fmt.Sprintf("S%d", i))
+		}
+	}
+	b.WriteString("}\n")
+	prog := awk.MustParse(b.String(), nil)
+	old, _ := os.Getwd()
+	os.Chdir(c13Dir)
+	res := awk.Exec(prog, &interp.Config{Stdin: strings.NewReader("")})
+	os.Chdir(old)
+	c.Eval(1)
+	c.Add("transitions", 1)
+	data, _ := os.ReadFile(filepath.Join(c13Dir, "f2"))
+	got := string(data)
+	c.Outcome("two-names " + got)
+	if res.Panic != "" || res.Err != nil {
+		c.Fail("D:two-names:run-failed", cs, fmt.Sprintf("panic=%s err=%v", firstLine(res.Panic), res.Err))
+		return
+	}
+	lines := strings.Split(strings.TrimSuffix(got, "\n"), "\n")
+	ok := strings.HasPrefix(got, "old\n") && strings.HasSuffix(got, "\n") && len(lines) == len(want)+1
+	if ok {
+		seen := map[string]int{}
+		for _, l := range lines[1:] {
+			seen[l]++
+		}
+		for _, w := range want {
+			if seen[w] != 1 {
+				ok = false
+			}
+		}
+	}
+	if !ok {
+		c.Fail("D:append-lost-or-overwrote-data", cs, fmt.Sprintf("file f2 = %q; want \"old\" followed by each of %q exactly once (any order); program:\n%s", got, want, b.String()))
+	}
+}
+
+func c13TwoNames(c *core.Ctx) {
+	alpha := []string{"a1", "a2", "fl", "c1", "c2", "sys"}
+	for n := 2; n <= 4; n++ {
+		idx := make([]int, n)
+		for {
+			ops := make([]string, n)
+			writes := 0
+			for i, k := range idx {
+				ops[i] = alpha[k]
+				if ops[i] == "a1" || ops[i] == "a2" || ops[i] == "sys" {
+					writes++
+				}
+			}
+			if writes >= 2 && c.Mine() && !c.Expired() {
+				c.Add("states", 1)
+				c13TwoEval(c, c13TwoCase{Part: "two-names", Ops: ops})
 			}
 			k := n - 1
 			for k >= 0 {
@@ -894,6 +996,8 @@ func c13Replay(c *core.Ctx, raw json.RawMessage) {
 	}
 	c13Dir = c01Dir(c)
 	switch cs.Part {
+	case "two-names":
+		c13TwoEval(c, c13TwoCase{Part: cs.Part, Ops: cs.Ops})
 	case "X", "S":
 		m := c13Expect(cs.Ops)
 		o := c13Exec(sched.NewChooser(cs.Choices), c13Source(cs.Ops), cs.Buffered, false, -1)
@@ -941,6 +1045,7 @@ func init() {
 		Level: "model_checking",
 		Rule: "X: every sequence of <=3 (thorough <=4) operations over 17 kinds (print/printf to stdout, > file, >> file, | two commands, close, fflush, system, cmd|getline, getline<file, exit status of closed commands, exit, run-time error) run on the real interpreter over virtual processes, with unbuffered and bufio-wrapped Config.Output, against a destination model (state = one sequence); " +
 			"S: for sequences with a child sharing stdout, every schedule of program/child/copy threads with up to 2 (thorough 3; one less for the longest sequences) deviations from the default scheduler (a preemption or a non-default pick at a blocking point) under a cooperative scheduler where each Write to Config.Output is a two-event critical section (transition = one schedule); " +
+			"D2: one file appended to (>>) through two names and by a real child in turn, every sequence of <=4 operations over {>> f2, >> ./f2, fflush, close either, system(echo >> f2)}: old content plus every line exactly once; " +
 			"D: a write failure at every byte offset of stdout for 11 output paths x {unbuffered, bufio}, plus the CLI with stdout=/dev/full; distinct = distinct stdout/file observations",
 		Assumptions: []string{
 			"child processes and os/exec are replaced by the vexec model (scripted processes, bounded in-memory pipes, a copy thread for a non-*os.File Stdout exactly as os/exec does); kernel pipe buffering is not modelled",
